@@ -291,7 +291,13 @@ def part_diffuse(ctx, nss, RegionGeom):
             k = int(m.sum())
             ctx.count("diffuse_thrown", u.shape[1])
             ctx.count("diffuse_valid", k)
-            radio_cos = float(np.cos(cfg.simulation.max_cherenkov_angle)) if rep % 3 == 2 else None
+            # one effective cosine for the whole batch (what the radio channel passes), given as a Python float, a numpy scalar or a
+            # 0-d array: the thrown cone itself and narrower cones inside it - the cone rule holds whatever the container
+            radio_cos = None
+            if rep % 3 == 2:
+                c_ = float(np.cos(cfg.simulation.max_cherenkov_angle * float(rng.choice([1.0, 1.0, 0.75, 0.5, 0.25]))))
+                radio_cos = (c_, np.float64(c_), np.array(c_))[(rep // 3) % 3]
+                ctx.count("diffuse_scalar_cosine_" + ("float", "numpy_scalar", "zero_d_array")[(rep // 3) % 3])
             ins = gen_inputs(rng, k, geom.costhetaTrSubV[m], stream, radio_cos)
             with np.errstate(all="ignore"):
                 got = check_diffuse_call(ctx, geom, ci, stream, ins, m, lines, pend)
